@@ -177,6 +177,7 @@ type Exec struct {
 	recordFloats bool
 	obs         []obsRec
 	arrayMode   bool
+	hunting     bool // inside a bug-hunting obligation: no portfolio fall-back
 	obligation  bool
 	vfsState    *vfs
 	noMerge     bool
